@@ -40,6 +40,13 @@ pub fn keyword_cases(names: &[&str], group: &str, out: &mut Vec<Case>) {
         p("value-reference", format!("{n} INTEGER ::= 5\nT ::= INTEGER (0..{n})"));
         p("inline-sequence-component", format!("T ::= SEQUENCE {{ {n} SEQUENCE {{ b BOOLEAN }} }}"));
         p("inline-enumerated-component", format!("T ::= SEQUENCE {{ {n} ENUMERATED {{ x, y }} }}"));
+        // the name right before the extension marker is written a second time, in the header attribute
+        p("extensible-sequence-last-root-component", format!("T ::= SEQUENCE {{ z BOOLEAN, {n} INTEGER (0..7), ..., y BOOLEAN }}"));
+        p("extensible-set-last-root-component", format!("T ::= SET {{ z BOOLEAN, {n} INTEGER (0..7), ..., y BOOLEAN }}"));
+        p("extensible-choice-last-root-alternative", format!("T ::= CHOICE {{ z BOOLEAN, {n} NULL, ..., y BOOLEAN }}"));
+        p("extensible-enumerated-last-root-item", format!("T ::= ENUMERATED {{ zz, {n}, ..., yy }}"));
+        p("default-component", format!("T ::= SEQUENCE {{ {n} INTEGER (0..7) DEFAULT 3, z BOOLEAN }}"));
+        p("list-component", format!("T ::= SEQUENCE {{ {n} SEQUENCE OF INTEGER (0..7), z BOOLEAN }}"));
         p("default-enumerated-item", format!("E ::= ENUMERATED {{ {n}, zz }}\nT ::= SEQUENCE {{ a E DEFAULT {n} }}"));
     }
 }
